@@ -1,3 +1,5 @@
 import SlipVerif.Model.Num
+import SlipVerif.Model.Printer
 import SlipVerif.Driver.Num
+import SlipVerif.Driver.Printer
 import SlipVerif.Driver.Util
